@@ -737,9 +737,16 @@ def declare(d, ocp=None, stage=None, solver=True, method=True, with_cons=True, w
     if lhs is not None:
         setter(lhs, rhs_)
     else:
+        if d.get("redeclare") and d["intg"] != "set_next":
+            # a draft of the model declared first (other right-hand side, its own derivative scale); the final
+            # declaration below replaces it completely - a final call without scale= means derivative scale 1
+            for name in names:
+                st.set_der(s[name], 0.5 * f[name], scale=7.0)
         for name in (list(reversed(names)) if d.get("der_order") == "reverse" else names):
             if d["intg"] == "set_next":
                 st.set_next(s[name], f[name])
+            elif d.get("redeclare") and ("der_" + name) not in sc:
+                st.set_der(s[name], f[name])
             else:
                 st.set_der(s[name], f[name], scale=scl("der_" + name, s[name].shape))
     if d["alg"]:
